@@ -162,7 +162,7 @@ def gen_values(ck):
     for lo in near:
         for la in near:
             out.append((lo, la, 'ulp-neighbour'))
-    n = 900 if ck.tier == 'quick' else 30000
+    n = 900 if ck.tier == 'quick' else 20000
     # random dyadics in +-1e5 (exact in the float loop)
     for _ in range(n):
         j = rng.choice([0, 0, 1, 2, 3, 8, 16, 20])
@@ -339,7 +339,7 @@ def main():
 
     anchors = [0.0, -0.0, 90.0, -90.0, 180.0, -180.0, 45.0, -45.0, 1.0, 179.99999999999997, 1e-9, 33.3, -178.7, 0.1]
     pts = [(lo, la) for lo in anchors for la in (0.0, 33.3, 90.0, -90.0, 1e-9) if abs(la) <= 90]
-    for _ in range(60 if ck.tier == 'quick' else 3000):
+    for _ in range(60 if ck.tier == 'quick' else 1200):
         pts.append((rng.uniform(-180, 180), rng.uniform(-90, 90)))
         pts.append((rng.randrange(-1800, 1800) / 10, rng.randrange(-900, 901) / 10))
     for lo, la in pts:
